@@ -1554,6 +1554,7 @@ var shapeTargets = []shapeTarget{
 	{"cmd/thruserv", "handleWebSocket", "", "args:store.GetByJoinCode", "handler_lookup_args"},
 	{"internal/ice", "ProbeAndDial", "Prober", "if-cond-has:claimed", "probe_claim"},
 	{"internal/ice", "ProbeAndDial", "Prober", "select-cases", "probe_selects"},
+	{"internal/ice", "ProbeAndDial", "Prober", "closure-order:dialCandidate:claimed.CompareAndSwap(false, true)|resultCh <- conn|State: ProbeStateWon|conn.CloseWithError(0, \"race_lost\")", "probe_claim_order"},
 	{"internal/ice", "ProbeAndDial", "Prober", "args:probeWithTransport", "probe_phases"},
 	{"internal/ice", "ProbeAndDial", "Prober", "if-cond-has:directErr", "probe_phase_errs"},
 	{"internal/ice", "ProbeAndDial", "Prober", "if-cond-has:directCandidates", "probe_direct_phase"},
@@ -1634,6 +1635,7 @@ var shapeTargets = []shapeTarget{
 	{"internal/transfer", "trySendEnd", "sendFileState", "if-all", "sendfile_try_end"},
 	{"internal/transfer", "beginVerify", "sendFileState", "body-stmts", "sendfile_begin_verify"},
 	{"internal/transfer", "SendManifestMultiStream", "", "if-cond-has:beginVerify", "send_begin_verify_call"},
+	{"internal/transfer", "SendManifestMultiStream", "", "closure-order:applyResumeInfo:state.plan = plan|state.beginVerify()|opts.ResumeStatsFn(|go func(vChunk", "send_apply_order"},
 	{"internal/transfer", "SendManifestMultiStream", "", "assign:state.verifyPending", "send_verify_pending_sets"},
 	{"internal/app", "maybeStartTransfers", "SnapshotSender", "if-all", "admission_start"},
 	{"internal/app", "runTransfer", "SnapshotSender", "assign:current", "admission_slot_identity"},
@@ -1813,6 +1815,45 @@ func (w *world) shapesIn(body *ast.BlockStmt, sel string) []string {
 				return false
 			}
 			return true
+		})
+		return res
+	}
+	if strings.HasPrefix(sel, "closure-order:") {
+		// closure-order:<name>:<a>|<b>|...: the given pieces of source text in the order of their first occurrence inside the function
+		// literal assigned to the named variable (a piece that does not occur is reported as "missing:<piece>")
+		parts := strings.SplitN(sel, ":", 3)
+		if len(parts) != 3 {
+			return nil
+		}
+		ast.Inspect(body, func(n ast.Node) bool {
+			as, ok := n.(*ast.AssignStmt)
+			if !ok || len(as.Lhs) != 1 || len(as.Rhs) != 1 || w.exprText(as.Lhs[0]) != parts[1] || res != nil {
+				return true
+			}
+			fl, ok := as.Rhs[0].(*ast.FuncLit)
+			if !ok {
+				return true
+			}
+			var buf bytes.Buffer
+			printer.Fprint(&buf, w.fset, fl.Body)
+			text := strings.Join(strings.Fields(buf.String()), " ")
+			type hit struct {
+				at int
+				s  string
+			}
+			var hits []hit
+			for _, needle := range strings.Split(parts[2], "|") {
+				if i := strings.Index(text, needle); i >= 0 {
+					hits = append(hits, hit{i, needle})
+				} else {
+					hits = append(hits, hit{1 << 30, "missing:" + needle})
+				}
+			}
+			sort.SliceStable(hits, func(i, j int) bool { return hits[i].at < hits[j].at })
+			for _, h := range hits {
+				res = append(res, h.s)
+			}
+			return false
 		})
 		return res
 	}
